@@ -39,12 +39,14 @@ const (
 )
 
 type grp struct {
-	id        uint64
-	threshold uint64
-	members   []string
-	keys      *tssworld.Group // key shares (genesis groups: known; created groups: after round 3)
-	dkg       []*dkgMember
-	createdH  int64
+	id           uint64
+	threshold    uint64
+	members      []string
+	keys         *tssworld.Group // key shares (genesis groups: known; created groups: after round 3)
+	dkg          []*dkgMember
+	createdH     int64
+	round        int  // completed key-generation rounds (x/tss events)
+	everIncoming bool // was created as the incoming group of a MsgTransitionGroup
 }
 
 type sigInfo struct {
@@ -276,6 +278,18 @@ func (w *world) inProgress() []uint64 {
 	return out
 }
 
+// groups whose key generation ended with the given outcome (facts reported by x/tss events), newest first
+func (w *world) groupsWithStatus(st string) []uint64 {
+	var out []uint64
+	ids := w.groupIDs()
+	for i := len(ids) - 1; i >= 0; i-- {
+		if g := w.m.groups[ids[i]]; g != nil && g.status == st {
+			out = append(out, ids[i])
+		}
+	}
+	return out
+}
+
 func (w *world) openSignings() []uint64 {
 	var ids []uint64
 	for id, s := range w.sigs {
@@ -359,7 +373,26 @@ func (b *blockBuilder) build(o op) {
 			}
 		}
 		var target uint64
+		// selectors of groups without a finished key generation (see selDKG...): late-bound, "any group" when there is none
+		var special []uint64
+		sel := o.A
 		switch {
+		case o.A >= selGhost:
+			target = w.ch.App.TSSKeeper.GetGroupCount(ctx) + 1 + uint64(o.A-selGhost)
+		case o.A >= selExpired:
+			special, sel = w.groupsWithStatus("expired"), o.A-selExpired
+		case o.A >= selFallen:
+			special, sel = w.groupsWithStatus("fallen"), o.A-selFallen
+		case o.A >= selDKG:
+			special, sel = w.inProgress(), o.A-selDKG
+		}
+		if o.A >= selDKG && o.A < selGhost && len(special) == 0 {
+			b.inapplicable("propF_selector")
+		}
+		switch {
+		case target != 0:
+		case len(special) > 0:
+			target = pick(special, sel)
 		case o.A >= 100 && len(ids) > 0:
 			target = pick(ids, o.A)
 		case len(good) > 0:
@@ -725,6 +758,10 @@ func (w *world) scan(evs []abci.Event, meta *txMeta, T time.Time, h int64) {
 					w.de[a]--
 				}
 			}
+		case "round1_success", "round2_success":
+			if g := w.grps[parseU(sim.Attr(e, "group_id"))]; g != nil {
+				g.round++
+			}
 		case "round3_success":
 			gid := parseU(sim.Attr(e, "group_id"))
 			w.onDKGDone(gid, T, h)
@@ -824,10 +861,38 @@ func (w *world) onProposal(pid uint64, result string, T time.Time, h int64) {
 	maxExec := T.Add(time.Duration(w.c.Max) * time.Second)
 	newGroup := w.pendingGroup
 	w.pendingGroup = 0
+	if g := w.grps[newGroup]; g != nil && p.kind == "trans" {
+		g.everIncoming = true
+	}
 	var cls string
 	if p.kind == "trans" {
 		cls = w.m.proposalTransition(passed, newGroup, p.execTime, minExec, maxExec, h, w.takeOut())
 	} else {
+		// what kind of group does the forced transition name, at the moment governance executes it
+		kind := "nonexistent"
+		if g := w.m.groups[p.target]; g != nil {
+			kind = map[string]string{"creating": "dkg", "active": "active", "fallen": "fallen", "expired": "expired"}[g.status]
+		}
+		if kind != "active" {
+			inWindow := !p.execTime.Before(minExec) && !p.execTime.After(maxExec)
+			w.class("force-to-" + kind + "-group")
+			w.v.Count("force_to_"+kind+"_group", 1)
+			if w.m.tr != nil {
+				w.class("force-to-" + kind + "-group:transition-in-progress")
+			} else if inWindow {
+				// nothing else is wrong with the proposal: the group alone decides
+				w.class("force-to-" + kind + "-group:decisive")
+				w.v.Count("force_to_"+kind+"_group_decisive", 1)
+			}
+			if kind == "dkg" {
+				if g := w.grps[p.target]; g != nil {
+					w.class(fmt.Sprintf("force-to-dkg-group:ROUND_%d", g.round+1))
+					if w.m.tr == nil && g.everIncoming {
+						w.class("force-to-dkg-group:left-over-of-dropped-transition")
+					}
+				}
+			}
+		}
 		cls = w.m.proposalForce(passed, p.target, p.execTime, minExec, maxExec, h, w.takeOut())
 	}
 	w.class(cls)
@@ -1091,10 +1156,27 @@ func (w *world) compare(h int64, T time.Time, curBefore uint64) {
 			}
 		}
 	}
+	// the group that signs for the chain is a group that finished key generation
+	if cg.GroupID != 0 {
+		tg, err := w.ch.App.TSSKeeper.GetGroup(ctx, cg.GroupID)
+		if err != nil || tg.Status != tsstypes.GROUP_STATUS_ACTIVE {
+			w.v.Failf("C18/current-group-not-active", "height %d: the current signing group %d never finished key generation: x/tss status %v (%v)", h, cg.GroupID, tg.Status, err)
+			return
+		}
+		if mg := m.groups[uint64(cg.GroupID)]; mg == nil || mg.status != "active" {
+			w.v.Failf("C18/current-group-not-active", "height %d: the current signing group %d never reported a completed key generation (reference status %v)", h, cg.GroupID, mg)
+			return
+		}
+	}
 	// members
 	var chainM []string
 	for _, mem := range bk.GetMembers(ctx) {
 		chainM = append(chainM, mkey(uint64(mem.GroupID), mem.Address))
+		// every listed member belongs to the current group or to the incoming group of the open transition
+		if uint64(mem.GroupID) != m.cur && (m.tr == nil || uint64(mem.GroupID) != m.tr.incoming) {
+			w.v.Failf("C18/member-of-foreign-group", "height %d: bandtss lists %s as member of group %d, which is neither the current group %d nor an incoming group (%s)", h, mem.Address, mem.GroupID, m.cur, m.describe())
+			return
+		}
 	}
 	sort.Strings(chainM)
 	want := m.memberList()
